@@ -1122,20 +1122,13 @@ func (p *Parser) parseRegexpLiteral() ast.Expression {
 
 	val := p.curToken.Literal
 	if strings.HasPrefix(val, "(?") {
-		val = strings.TrimPrefix(val, "(?")
 
-		i := 0
-		for i < len(val) {
-
-			if val[i] == ')' {
-
-				val = val[i+1:]
-				break
-			} else {
-				flags += string(val[i])
-			}
-
-			i++
+		// What stands between "(?" and the first ")" is kept apart,
+		// as text: it may be more than flags, and more than ASCII.
+		rest := strings.TrimPrefix(val, "(?")
+		if i := strings.Index(rest, ")"); i >= 0 {
+			flags = rest[:i]
+			val = rest[i+1:]
 		}
 	}
 	return &ast.RegexpLiteral{Token: p.curToken, Value: val, Flags: flags}
